@@ -744,6 +744,8 @@ class World:
         self.add("m", op["out"], m, {"cls": cls, "faces": faces, "form": a["form"]})
         ctx.created.append(op["out"])
         self.probes["mesh:" + cls] += 1
+        if a.get("regraded_from"):
+            self.probes["mesh:regraded-twin"] += 1
 
     def op_bc(self, a, op, ctx):
         ment = self.get(a["m"], "m")
@@ -874,6 +876,7 @@ class World:
         how = a["how"]
         arr = getattr(face, coef)
         shape = arr.shape
+        ref = np.array(arr, copy=True).view(np.ndarray)
         try:
             if how == "assign":
                 setattr(face, coef, self._val(a["val"], shape))
@@ -904,6 +907,32 @@ class World:
             ctx.status = "raised:" + type(ex).__name__
             ctx.fault = "bad_shape_assign"
             self.stats["fault-fired:bad_shape_assign"] += 1
+        else:
+            # the coefficient now reads back what the same numpy operation stores
+            try:
+                if how in ("assign", "full"):
+                    ref[...] = self._val(a["val"], shape)
+                elif how == "slice":
+                    sl = rslices(a["sl"], shape)
+                    ref[sl] = self._val(a["val"], ref[sl].shape)
+                elif how == "item2":
+                    sl = rslices(a["sl"], shape)
+                    sub = ref[sl[0]]
+                    if sub.ndim > 1:
+                        sl2 = (slice(None),) + rslices(a["sl"][1:], sub.shape[1:])
+                    else:
+                        sl2 = rslices(a.get("sl2", [[0, 0]]), sub.shape)
+                    sub[sl2] = self._val(a["val"], sub[sl2].shape)
+                elif how == "imul":
+                    ref *= float(a["k"])
+                self.oracle_runs["edit-effect"] += 1
+                if not exact(np.asarray(getattr(face, coef)), ref):
+                    self.flag("C09", "I3", "edit-lost/bc_edit:%s" % how,
+                              {"bc": bent.name, "side": a["side"], "coef": coef})
+            except Violation:
+                raise
+            except BaseException:
+                pass
         self._mark_bc_edit(bent, how, ctx)
 
     def op_bc_badshape(self, a, op, ctx):
@@ -1153,6 +1182,7 @@ class World:
         shape = tuple(int(x) for x in v.domain.dims)
         if how == "slice2":
             self.probes["edit:value-view-of-view"] += 1
+        before = np.array(A.full_array(v), copy=True).view(np.ndarray)
         try:
             self._apply_val_edit(v, a, shape)
         except Skip:
@@ -1165,6 +1195,8 @@ class World:
             vent.meta["fault_kind"] = ctx.fault
             if how != "badshape":
                 self._valid_edit_raised(vent, a, shape, ex, ctx)
+        else:
+            self._check_val_edit_effect(vent, a, shape, before, ctx)
         vent.meta["last_val_edit"] = self.step
         vent.meta["last_val_kind"] = how
         if how == "update":
@@ -1174,6 +1206,41 @@ class World:
                 self.probes["edit:update_value-from-bc-sharer"] += 1
         ctx.written.add(vent.name)
         ctx.i3.append(vent.name)
+
+    def _check_val_edit_effect(self, vent, a, shape, before, ctx):
+        """The edit must have the effect the same numpy operation has on a plain
+        array with the same storage (dtype, values): assignments are stored,
+        update_value takes the source over (ghost cells included)."""
+        how = a["how"]
+        nd = len(shape)
+        ref = before
+        inner = ref[(slice(1, -1),) * nd]
+        try:
+            if how == "assign":
+                inner[...] = self._val(a["val"], shape)
+            elif how == "slice":
+                sl = rslices(a["sl"], shape)
+                inner[sl] = self._val(a["val"], inner[sl].shape)
+            elif how == "slice2":
+                sl = rslices(a["sl"], shape)
+                sub = inner[sl]
+                sl2 = rslices(a.get("sl2", []), sub.shape)
+                sub[sl2] = self._val(a["val"], sub[sl2].shape)
+            elif how == "imul":
+                inner *= float(a["k"])
+            elif how == "update":
+                ref[...] = A.full_array(self.get(a["src"], "v").obj)
+            else:
+                return
+        except BaseException:
+            return
+        self.oracle_runs["edit-effect"] += 1
+        if not exact(A.full_array(vent.obj), ref):
+            det = {"var": vent.name, "how": how, "maxdiff": maxdiff(A.full_array(vent.obj), ref)}
+            self.flag("C09", "I3", "edit-lost/val_edit:%s" % how, det)
+            if how == "update":
+                # time loops of the form old.update_value(new) no longer advance
+                self.flag("C12", "I6", "update_value/not-taken-over", det)
 
     def _valid_edit_raised(self, vent, a, shape, ex, ctx):
         """A well-formed value edit raised.  Legitimate when a freshly constructed
@@ -1635,6 +1702,13 @@ class World:
         ctx.relation[vent.name] = "explicit-input"
         if e.meta["bc"] == vent.meta["bc"]:
             self.probes["explicit-result-shares-bc-object"] += 1
+        else:
+            # "boundary values re-imposed": in a chained loop c = solveExplicitPDE(c, ..)
+            # the user keeps editing the BoundaryConditions object the first variable
+            # was built with (a time-dependent boundary value); a result that carries a
+            # private snapshot of the BCs no longer follows it (DESIGN 13.2)
+            self.flag("C12", "I6", "explicit/result-does-not-follow-input-bcs",
+                      {"var": vent.name, "result": e.name})
         ctx.i3.append(e.name)
         ctx.i4.append(e.name)
         if "I6" in self.inv:
